@@ -102,15 +102,42 @@ class C06(Prop):
             except ac.Unsupported as e:
                 return {"unmodelled": str(e), "n_steps": len(log), "kinds": ["oracle-only"], "d26_steps": loop_steps_with_other_setups(log)}
             progs.append({"prog": c.program(), "points": ac.real_inference_at_points(c)})
+        # block-level steps: the move performed by the real pattern, as (block path + start of the segment, flags)
+        moves = []
+        for k, (name, path, before, after, *rest) in enumerate(log):
+            perm = rest[0] if rest else None
+            if name != "BlockLevelSetupAwaitOverlapPattern":
+                continue
+            if perm is None:
+                moves.append({"step": k, "error": "block-level step is not a permutation of one block"})
+                continue
+            changed = [i for i, q in enumerate(perm) if q != i]
+            if not changed:
+                continue
+            start, end = changed[0], changed[-1]
+            seg_after = perm[start:end + 1]           # before-positions in their new order
+            cut = seg_after.index(start)              # the first staying statement is the one that was at `start`
+            moved = set(seg_after[:cut])
+            flags = [(q in moved) for q in range(start, end + 1)]
+            mp = model_path(path)
+            moves.append({"step": k, "path": mp[:-1] + [start], "flags": flags,
+                          "ok_order": seg_after[:cut] == sorted(seg_after[:cut]) and seg_after[cut:] == sorted(seg_after[cut:])})
         kinds = sorted({n.replace("SetupAwaitOverlapPattern", "") for (n, *_r) in log})
-        return {"progs": progs, "n_steps": len(log), "kinds": kinds, "d26_steps": loop_steps_with_other_setups(log)}
+        return {"progs": progs, "n_steps": len(log), "kinds": kinds, "d26_steps": loop_steps_with_other_setups(log),
+                "moves": moves}
 
     def requests(self, case, impl_out):
         if case["kind"] == "d26_literal":
             return [{"fn": "c06.witness", "args": {}}]
         if "progs" not in impl_out:
             return []
-        return [{"fn": "c07.analyse", "args": {"body": p["prog"]["body"], "fields": p["prog"]["fields"]}} for p in impl_out["progs"]]
+        reqs = [{"fn": "c07.analyse", "args": {"body": p["prog"]["body"], "fields": p["prog"]["fields"]}} for p in impl_out["progs"]]
+        for m in impl_out.get("moves", []):
+            if "error" in m:
+                continue
+            before = impl_out["progs"][m["step"]]["prog"]   # progs[0] = input of the pass, progs[k+1] = after step k
+            reqs.append({"fn": "c06.move", "args": {"path": m["path"], "flags": m["flags"], "body": before["body"]}})
+        return reqs
 
     def model(self, case, answers, impl_out):
         if case["kind"] == "d26_literal":
@@ -119,12 +146,30 @@ class C06(Prop):
         if "progs" not in impl_out:
             return impl_out
         progs = []
-        for p, a in zip(impl_out["progs"], answers):
+        n = len(impl_out["progs"])
+        for p, a in zip(impl_out["progs"], answers[:n]):
             if "err" in a:
                 return {"model_error": a["err"]}
             if not a["ok"]["wf"]:
                 return {"model_error": "intermediate program violates the SSA well-formedness predicate of the theorems"}
             progs.append({"prog": p["prog"], "points": [sorted(x) for x in a["ok"]["annot"]]})
+        # certified block moves: the model's result must be the real IR after the step
+        k = n
+        for m in impl_out.get("moves", []):
+            if "error" in m:
+                return {"model_error": m["error"]}
+            a = answers[k]
+            k += 1
+            if "err" in a:
+                return {"model_error": a["err"]}
+            if a["ok"]["after"] is None:
+                return {"model_error": f"block move of step {m['step']} is not certified: a moved statement depends on one it jumps over "
+                                       f"(or the segment does not fit)", "move": m}
+            if not m["ok_order"]:
+                return {"model_error": f"block move of step {m['step']} does not keep the relative order of moved / staying statements"}
+            real_after = impl_out["progs"][m["step"] + 1]["prog"]["body"]
+            if ac.canon_ast(a["ok"]["after"]) != ac.canon_ast(real_after):
+                return {"model_error": f"certified block move of step {m['step']} does not reproduce the real rewrite", "move": m}
         return dict(impl_out, progs=progs)
 
     def oracle(self, case, impl_out):
